@@ -184,6 +184,8 @@ func (p *faultPlan) hit(comp string) error {
 		panic("injected panic in " + comp)
 	case "panic-error":
 		panic(fmt.Errorf("injected error-valued panic in %s", comp))
+	case "panic-eof":
+		panic(io.EOF) // the value a broken backend connection is reported with further down
 	case "panic-runtime":
 		var a []int
 		_ = a[len(comp)] // a real runtime.Error (index out of range)
@@ -588,7 +590,7 @@ func childC12(args []string) int {
 						if n > 6 && idx > 2 && idx < n-1 && !run.Thorough() {
 							continue
 						}
-						for _, kind := range []string{"panic", "panic-error", "panic-runtime", "ioerr", "apperr", "panic+closeerr", "ioerr+closeerr"} {
+						for _, kind := range []string{"panic", "panic-error", "panic-eof", "panic-runtime", "ioerr", "apperr", "panic+closeerr", "ioerr+closeerr"} {
 							if strings.HasSuffix(kind, "+closeerr") && comp == "res" {
 								continue // the backend handles are what reports close errors
 							}
